@@ -3,6 +3,7 @@ import SevenZ.Driver.Util
 import SevenZ.Model.Path
 import SevenZ.Model.Cli
 import SevenZ.Model.Select
+import SevenZ.Model.Attr
 namespace SevenZ.Driver
 open SevenZ
 
@@ -44,6 +45,13 @@ def pathHandler (op : String) (args : List String) : Option String :=
   | "sel.run", [r, ts, name] => do
     let targets ← (if ts = "." then some [] else (ts.splitOn ";").mapM parseStr)
     pure (b01 (Impl.selected (← parseBool r) targets (← parseStr name)))
+  | "attr.enc", [k, m] => do
+    let kind ← (match k with | "file" => some Impl.Kind.file | "dir" => some .dir | "symlink" => some .symlink | _ => none)
+    pure (toString (Impl.encodeAttr kind (← m.toNat?)))
+  | "attr.dec", [a] => do
+    let r := Impl.decodeAttr (← a.toNat?)
+    let k := match r.1 with | .file => "file" | .dir => "dir" | .symlink => "symlink"
+    pure (k ++ " " ++ (match r.2 with | none => "N" | some m => toString m))
   | "cli.check", [a] => do pure (b01 (Impl.checkVolumeSize (← parseStr a)))
   | "cli.conv", [r, a] => do
     pure (match Impl.unitConv (← parseBool r) (← parseStr a) with
